@@ -652,11 +652,16 @@ func genC16(r *rand.Rand, t *Trace, thorough bool) {
 					emitRead(t, b.spec, b.stream[:i], 1, 0, "prefix.sampled."+kindNames[ck])
 				}
 			}
-			// version bump
+			// another format version: the one before (0), the next, a far one, the largest
 			if n >= 8 {
-				mut := append([]byte(nil), b.stream...)
-				mut[4] = 2
-				emitRead(t, b.spec, mut, 1, 0, "mismatch.version")
+				for _, ver := range [][4]byte{{0, 0, 0, 0}, {2, 0, 0, 0}, {1, 1, 0, 0}, {99, 0, 0, 0}, {255, 255, 255, 255}} {
+					mut := append([]byte(nil), b.stream...)
+					if mut[4] == ver[0] && mut[5] == ver[1] && mut[6] == ver[2] && mut[7] == ver[3] {
+						continue
+					}
+					copy(mut[4:8], ver[:])
+					emitRead(t, b.spec, mut, 1, 0, "mismatch.version")
+				}
 			}
 		}
 	}
